@@ -398,11 +398,12 @@ ASSUME = [
 
 CLAIM = dict(
     text='Machine-checked proof (Coq 8.16.1) over a schedule-driven model of the bgzf.Writer pipeline (compressor pool, queue/waiting/flush channels, emitter goroutine, wait groups, error latch) with an arbitrary fault plan: '
-         'no reachable state in which an API call is blocked and no thread can move, every run is finite, after Close every thread has terminated, a failed underlying write is reported by Close and by Wait and by every later call; '
-         'token conservation (one qwg.Done and one return to the pool per queued block on every path) is proved over the channel skeleton regenerated from writer.go on every run. '
-         'A sync-reader model with a fault offset proves that returned bytes are the true data at their position and a clean EOF only occurs at the true end. '
-         'Model and implementation are run on the same fault cases (lock-step schedules forced by holding underlying calls until the API call is parked).',
-    note='Trusted: Coq kernel; the model of Go channels/WaitGroup/scheduler; gen/emit_c09.go (skeleton extraction); the goroutine census of the harness. '
-         'Partial: liveness is about the model\'s transition system; the async reader and caches are covered by the oracle on the implementation only.',
+         'for every script, wc, fault index and schedule no reachable state has a blocked API call with no thread able to move, after Close every thread has terminated, nothing is written to the underlying writer after a failed call, '
+         'and a failed underlying write is reported by Close, by Wait and by every later Write/Flush/Wait; token conservation (one qwg.Done and one return to the pool per queued block on every path) is proved over the channel skeleton '
+         'regenerated from writer.go on every run, which also selects the model variant. A sync-reader model with a fault offset proves that the block served always is the member at its base (the invariant the stale-block defect broke). '
+         'Model and implementation are run on the same fault cases under lock-step schedules forced by holding underlying calls until the API call is parked (goroutine census); an oracle judges hangs, leaks, swallowed errors and returned bytes, also for rd>1 and caches.',
+    note='Trusted: Coq kernel; the model of Go channels/WaitGroup/scheduler (atomic steps); gen/emit_c09.go (skeleton extraction); the goroutine census of the harness. '
+         'Partial: deadlock freedom and termination of threads after Close are proved, a termination measure for every run is not; reader theorem is block-level (flat positions and EOF-at-true-end by correspondence/oracle only); '
+         'the async reader and caches are covered by the oracle on the implementation only and have two recorded findings (hang / panic after a fault).',
     technique='Coq proof (invariants over a small-step concurrent model, all schedules) + skeleton regenerated from source + lock-step correspondence + fault-injection oracle',
     design='6/C09')
